@@ -18,6 +18,12 @@ def ecp_of(el):
     return (copy.deepcopy(el.get('ecp_potentials')), el.get('ecp_electrons'))
 
 
+def ecp_multiset(el):
+    """the potentials as a multiset: for paths that run sort_basis, which may reorder them (its own promise)"""
+    p = el.get('ecp_potentials')
+    return (None if p is None else sorted(jdump(x) for x in p), el.get('ecp_electrons'))
+
+
 def wf_shell(sh):
     """the well-formedness the theorems assume (rectangular, non-empty, fused => one column per member,
     every column has a non-zero entry, numbers parse, exponent values distinct)"""
